@@ -7,6 +7,7 @@
 -/
 import QV.Proofs.WriterExtents
 import QV.Proofs.WriterCfg
+import QV.Proofs.WriterGetters
 
 namespace QV.Writer
 open QV QV.Wire QV.Spec QV.ServerSafety
@@ -370,6 +371,20 @@ theorem absOk_hdr (op : Op) (a a' : Message.AState) (d : Message.Decoded)
 
 theorem hdrStep_z (h : Message.Header) (op : Op) : (hdrStep h op).z = h.z := by cases op <;> rfl
 
+/-- what the driver records for every call: the status, or for `getters` what they report -/
+def obs (ss : Session) : List Op → List String
+  | [] => []
+  | op :: ops =>
+    (match op with
+      | .getters => Driver.gettersStr ss.w
+      | _ => Driver.statusStr (step ss op).1) :: obs (step ss op).2 ops
+
+theorem obs_ne (ss : Session) (op : Op) (ops : List Op) (h : op ≠ .getters) :
+    obs ss (op :: ops) = Driver.statusStr (step ss op).1 :: obs (step ss op).2 ops := by
+  cases op <;> first
+    | exact absurd rfl h
+    | rfl
+
 /-- **the walk of the specification over a segment**: on the statuses the model reports and the
     decoded finished message, `walk` accepts every call and reaches `checkSegment` in an abstract
     state that describes the final writer state -/
@@ -382,32 +397,56 @@ theorem walk_segment {sR : State} (hcurR : sR.cursor ≤ 65535) (d : Message.Dec
       I ss.w → CLay (fun _ => True) ss.w b mb → AbsNum ss.w a → IdxOK a → a.itemIdx = bodyLen b →
       a.hdr = specHeader ss.w.octets → a.hdr.z = 0 → AbsContent a b mb → AbsCfg ss.w a →
       (∀ op ∈ ops, op.Typed ∧ ApiBounds op) →
-      Respects ss ops → (∀ op ∈ ops, op ≠ .clearRrs ∧ op ≠ .getters ∧ NonEmptySet op) → (run ss ops).1.w = sR →
+      Respects ss ops → (∀ op ∈ ops, op ≠ .clearRrs ∧ NonEmptySet op) → (run ss ops).1.w = sR →
       ∃ aF, AbsNum sR aF ∧ aF.hdr = specHeader sR.octets ∧ aF.hdr.z = 0 ∧
         AbsContent aF (bodyRun b ops (run ss ops).2) (mrun ss mb ops) ∧ AbsCfg sR aF ∧
-        Message.walk false a (ops.map Driver.toSpecOp) ((run ss ops).2.map Driver.statusStr ++ ["ok"]) [m] (some d) mac' =
+        Message.walk false a (ops.map Driver.toSpecOp) (obs ss ops ++ ["ok"]) [m] (some d) mac' =
           Message.checkSegment false aF d m.size mac' := by
   intro ops
   induction ops with
   | nil =>
     intro ss b mb a hI hL hA hidx hlen hh hz hC hG _ _ _ hfin
     refine ⟨a, by rw [← hfin]; exact hA, by rw [← hfin]; exact hh, hz, hC, by rw [← hfin]; exact hG, ?_⟩
-    simp [run, Message.walk]
+    simp [run, obs, Message.walk]
   | cons op ops ih =>
     intro ss b mb a hI hL hA hidx hlen hh hz hC hG ht hr hno hfin
     obtain ⟨hop, hrest⟩ := hr
     have ht' : ∀ op' ∈ ops, op'.Typed ∧ ApiBounds op' := fun op' h => ht op' (List.mem_cons_of_mem _ h)
+    have hno' : ∀ op' ∈ ops, op' ≠ .clearRrs ∧ NonEmptySet op' :=
+      fun op' h => hno op' (List.mem_cons_of_mem _ h)
+    by_cases hng : op = .getters
+    · -- `getters`: nothing changes; what they report is what the specification expects
+      subst hng
+      have hstep : step ss .getters = (.ok (), ss) := rfl
+      rw [hstep] at hrest
+      unfold run at hfin
+      simp only [hstep] at hfin
+      cases hrun : run ss ops with
+      | mk ss'' rs =>
+        rw [hrun] at hfin
+        simp only at hfin
+        obtain ⟨aF, hAF, hF1, hF2, hF3, hF4, hw⟩ := ih ss b mb a hI hL hA hidx hlen hh hz hC hG ht' hrest hno'
+          (by rw [hrun]; exact hfin)
+        rw [hrun] at hF3
+        refine ⟨aF, hAF, hF1, hF2, ?_, hF4, ?_⟩
+        · unfold run mrun
+          simp only [hstep, hrun]
+          simpa [bodyRun, bodyStep, mbodyStep] using hF3
+        · have hg := gettersStr_eq ss.w a hA hh hG
+          simp only [List.map_cons, Driver.toSpecOp, obs, List.cons_append, Message.walk, hg, beq_self_eq_true,
+            Bool.or_true, if_true]
+          rw [hstep]
+          exact hw
     have hhs := hdr_step ss op hI.inv (ht op List.mem_cons_self).1
     obtain ⟨hnp, hI'⟩ := step_I ss op hI hop
-    obtain ⟨hnc, hng, hnes⟩ := hno op List.mem_cons_self
-    have hno' : ∀ op' ∈ ops, op' ≠ .clearRrs ∧ op' ≠ .getters ∧ NonEmptySet op' :=
-      fun op' h => hno op' (List.mem_cons_of_mem _ h)
+    obtain ⟨hnc, hnes⟩ := hno op List.mem_cons_self
     have hL' := clay_step ss op b mb hI hL hop (fun _ _ => trivial)
     obtain ⟨hs1, hs2⟩ := toSpecOp_ne op hnc hng
     have hjust := step_justified ss op a hI hop hA
     have hsame := step_err_same ss op hI.inv
     unfold run at hfin
     unfold run mrun
+    rw [obs_ne ss op ops hng]
     cases hs : step ss op with
     | mk r ss' =>
       rw [hs] at hnp hI' hrest hL' hfin hjust hsame hhs
@@ -426,7 +465,7 @@ theorem walk_segment {sR : State} (hcurR : sR.cursor ≤ 65535) (d : Message.Dec
           have hG' : AbsCfg ss'.w a := absCfg_same hG (hsame e rfl)
           obtain ⟨aF, hAF, hF1, hF2, hF3, hF4, hw⟩ := ih ss' b mb a hI' hL' hA' hidx hlen hh' hz hC hG' ht' hrest hno'
             (by rw [hrun]; exact hfin)
-          rw [hrun] at hw hF3
+          rw [hrun] at hF3
           refine ⟨aF, hAF, hF1, hF2, by simpa [bodyRun] using hF3, hF4, ?_⟩
           simp only [List.map_cons, List.cons_append]
           rw [walk_default _ _ _ _ _ _ _ _ hs1 hs2, statusStr_err_ne_ok]
@@ -513,7 +552,7 @@ theorem walk_segment {sR : State} (hcurR : sR.cursor ≤ 65535) (d : Message.Dec
             rw [hw'] at this; exact this
           obtain ⟨aF, hAF, hF1, hF2, hF3, hF4, hw⟩ := ih ss' (bodyStep b op) _ a' hI' hL' hA' hidx' hlen' hh' hz' hC' hG'
             ht' hrest hno' (by rw [hrun]; exact hfin)
-          rw [hrun] at hw hF3
+          rw [hrun] at hF3
           refine ⟨aF, hAF, hF1, hF2, by simpa [bodyRun] using hF3, hF4, ?_⟩
           simp only [List.map_cons, List.cons_append]
           rw [walk_default _ _ _ _ _ _ _ _ hs1 hs2]
@@ -532,7 +571,7 @@ theorem walk_from_new (macFn : Tsig → List UInt8 → List UInt8) (hmac : MacLe
     (buf : Bytes) (limit : Nat) (s0 : State) (hnew : Writer.new buf limit = .ok s0) (hlim : limit ≤ 65535)
     (mode : CMode) (ops : List Op) (ht : ∀ op ∈ ops, op.Typed) (hb : ∀ op ∈ ops, ApiBounds op)
     (hr : Respects { w := { s0 with mode := mode } } ops) (hv : ∀ v, Op.setLimit v ∈ ops → v ≤ 65535)
-    (hno : ∀ op ∈ ops, op ≠ .clearRrs ∧ op ≠ .getters ∧ NonEmptySet op) (mac' : Option (List UInt8)) :
+    (hno : ∀ op ∈ ops, op ≠ .clearRrs ∧ NonEmptySet op) (mac' : Option (List UInt8)) :
     ∃ m mac d aF, finish (run { w := { s0 with mode := mode } } ops).1.w macFn = .ok (m, mac) ∧
       Message.specDecodeMsg m = some d ∧ AbsNum (run { w := { s0 with mode := mode } } ops).1.w aF ∧
       aF.hdr = d.msg.header ∧ aF.hdr.z = 0 ∧
@@ -542,7 +581,7 @@ theorem walk_from_new (macFn : Tsig → List UInt8 → List UInt8) (hmac : MacLe
       Message.walk false
           { mode := Driver.toSpecMode mode, buflen := buf.size, limit := min limit buf.size }
           (ops.map Driver.toSpecOp)
-          ((run { w := { s0 with mode := mode } } ops).2.map Driver.statusStr ++ ["ok"]) [m] (some d) mac' =
+          (obs { w := { s0 with mode := mode } } ops ++ ["ok"]) [m] (some d) mac' =
         Message.checkSegment false aF d m.size mac' := by
   have hI0 : I { s0 with mode := mode } := (safe_setMode mode s0 (new_i buf limit s0 hnew)).2
   have hL0 : CLay (fun _ => True) { s0 with mode := mode } {} {} := clay_new buf limit s0 hnew mode trivial
